@@ -5,6 +5,8 @@ import Norad.Generated.Vocab
 import Norad.Lemmas.C05
 import Norad.Lemmas.C05Bridge
 import Norad.Lemmas.C05Doc
+import Norad.Lemmas.C05Order
+import Norad.Lemmas.C05Mixed
 import Norad.Props.C02
 /-!
 # C05 — files are UFO 3 as an independent implementation reads and writes it
@@ -384,6 +386,50 @@ theorem norad_parser_reads_other_spellings {F : Fmt} {rd : Str → Option Nat} {
     ∃ g, parseGlif rd evs = .ok g ∧ loadObjectLibs (glyphOf nc libD d) = .ok g :=
   parse_other_spellings hF libD d hd pro tr minor hp hol hperm
 
+/-- **any element order, comments anywhere** — the full statement behind what the independent writer varies.  For a
+legal description `d` and ANY item list `items` with `ItemsPerm (itemsOf libD d) items` — top-level elements of different
+kinds exchanged in any way (every permutation that keeps the relative order inside each list-valued family: `unicode`,
+`anchor`, `guideline`; inside `outline`: contours among themselves, components among themselves, the two kinds
+interleaved freely), comments inserted between elements, inside `outline` and between the points of a contour — rendered
+with defaults omitted, numbers/colours in any spelling `F` that reads back, attributes in any order (`EvsPerm`),
+declaration/comments before the root, `formatMinor="0"` or not, anything after `</glyph>`: norad's parser accepts it and
+returns the SAME glyph, `load_object_libs (glyphOf nc libD d)`.
+This covers exactly the order-sensitive case the seeded changes C05-r3-2 / C05-r4-2 broke: `<lib>` written BEFORE the
+objects whose libs it carries (`lib` is a family of its own, so it may be moved to the front): the object libs are
+resolved at `</glyph>` on the complete glyph, so they are still attached (see the example with `d1` below).
+Proof: `interp_perm` / `legalItems_perm` (the described glyph and the legality of the items are invariant under
+`ItemsPerm`: items of different families commute in `Glif.applyG`, comments are no-ops) and the glif builder's
+`legal_accepted`. -/
+theorem norad_parser_reads_spec_document_any_order {F : Fmt} {rd : Str → Option Nat} {nc : Color → Color}
+    {ok : Nat → Prop} (hF : Codec F rd nc ok) (libD : Dict) (d : GlyphD) (hd : DescLegal ok nc d)
+    {items : List BIt} (hi : ItemsPerm (itemsOf libD d) items)
+    (pro tr : List Ev) (minor : Bool) (hp : ∀ e, e ∈ pro → isProlog e = true)
+    (hol : ∀ v, dictGet objectLibsKey (glyphOf nc libD d).lib = some v → ∃ ol, v = PV.dict ol ∧ AllDicts ol)
+    {evs : List Ev}
+    (hperm : EvsPerm (render F { prolog := pro, name := L d.name, minor := minor, items := items, trailer := tr }) evs) :
+    ∃ g, parseGlif rd evs = .ok g ∧ loadObjectLibs (glyphOf nc libD d) = .ok g :=
+  parse_any_order hF libD d hd hi pro tr minor hp hol hperm
+
+/-- **documents that MIX spelt-out and omitted defaults**: `specWriteWith ch rdr d` is `specWrite` with an independent
+choice `ch` at every attribute SITE whose value is the specification's default — `type` of each off-curve point and
+`smooth` of each point that is not smooth (`ch.point ci pi`), each of the six coefficients of each component (`ch.comp ki`)
+and of the image (`ch.image`), `width` / `height` of the advance — whether the attribute is written or left out (a value
+that is not the default is always written).  All-true is `specWrite`, all-false the minimal spelling; every mixture in
+between parses to the same glyph.  Same hypotheses as `norad_parser_reads_spec_document`. -/
+theorem norad_parser_reads_mixed_document {F : Fmt} {rd : Str → Option Nat} {rdr : Render} {nc : Color → Color}
+    {ok : Nat → Prop} (hF : Codec F rd nc ok) (hP : ParseCodec rd rdr ok) (ch : Choice) (rl : String → LibV) (libD : Dict)
+    (d : GlyphD) (hd : DescLegal ok nc d) (hl : ∀ t, d.lib = some t → rl t = .dict libD) :
+    parseGlif rd (eventsOf rl (specWriteWith ch rdr d)) = loadObjectLibs (glyphOf nc libD d) :=
+  parse_specWriteWith hF hP ch rl libD d hd hl
+
+-- OPEN (not reached), kept as a statement: format 1.
+--   norad_parser_reads_spec_document_v1 : for a description without identifiers, anchors, guidelines, image and note
+--   (what a format-1 glif can hold), written with `format="1"`, `parseGlif` returns the described glyph with the single
+--   named `move` contours turned into anchors.  The glif builder's `legal_accepted_v1` (`renderV1`, `interpV1`,
+--   `LegalItemsV1`) is the engine; missing here: a format-1 specification writer, `LegalItemsV1` derived from `DescLegal`
+--   plus the format-1 restrictions, and `interpV1` of the described document in closed form.  C05 is about UFO 3, whose
+--   glifs are format 2; format-1 input is C04/C14 territory.
+
 /-! non-vacuity of the two codec hypotheses (the glif builder's `F0`, `R0`, `nc0`, `ok0`: every number is 0) -/
 
 def lex0 : Lex :=
@@ -433,6 +479,45 @@ example : parseGlif R0 (eventsOf (fun _ => .bad) (specWrite render0 d0)) = loadO
 example : ∃ g, parseGlif R0 (render F0 (gdocOf [] d0)) = .ok g ∧ loadObjectLibs (glyphOf nc0 [] d0) = .ok g :=
   norad_parser_reads_other_spellings codec0 [] d0 descLegal_d0 [.decl] [] false (by intro e he; simp at he; subst he; rfl)
     (by intro v hv; simp [glyphOf, d0, dictGet] at hv) (evsPerm_refl _)
+
+/-- `d0` with a lib whose `public.objectLibs` carries a lib for the anchor `i` -/
+def d1 : GlyphD := { d0 with lib := some "t" }
+def libD1 : Dict := [(objectLibsKey, .dict [("i".toList, .dict [(['k'], PV.atom "b1")])])]
+
+/-- the same document with `<lib>` FIRST and `<outline>` LAST -/
+def itemsLibFirst : List BIt :=
+  [.lib libD1, .advance 0 0, .unicode 65, .anchor (anchorG ⟨0, 0, some "t", none, some "i"⟩), .outline (oitsOf d1)]
+
+theorem itemsPerm_d1 : ItemsPerm (itemsOf libD1 d1) itemsLibFirst := by
+  have e : itemsOf libD1 d1 =
+      [.advance 0 0, .unicode 65, .anchor (anchorG ⟨0, 0, some "t", none, some "i"⟩), .outline (oitsOf d1), .lib libD1] := rfl
+  rw [e]
+  exact (ItemsPerm.cons _ (.cons _ (.cons _ (.swap _ _ _ (by decide))))).trans
+    ((ItemsPerm.cons _ (.cons _ (.swap _ _ _ (by decide)))).trans
+      ((ItemsPerm.cons _ (.swap _ _ _ (by decide))).trans (.swap _ _ _ (by decide))))
+
+-- `<lib>` before the anchor whose lib it carries: accepted, and the anchor gets its lib (the C05-r3-2 / r4-2 regression)
+example : ∃ g, parseGlif R0 (render F0 { prolog := [.decl], name := L d1.name, minor := false, items := itemsLibFirst, trailer := [] }) = .ok g ∧
+    loadObjectLibs (glyphOf nc0 libD1 d1) = .ok g :=
+  norad_parser_reads_spec_document_any_order codec0 libD1 d1 ((desc_legal_decidable ok0 nc0 d1).1 (by decide)) itemsPerm_d1
+    [.decl] [] false (by intro e he; simp at he; subst he; rfl)
+    (by
+      intro v hv
+      have : v = PV.dict [("i".toList, .dict [(['k'], PV.atom "b1")])] := by
+        simp [glyphOf, d1, d0, libD1, dictGet] at hv; exact hv.symm
+      subst this
+      exact ⟨_, rfl, by intro e he; simp at he; subst he; exact ⟨_, rfl⟩⟩)
+    (evsPerm_refl _)
+
+example : (match loadObjectLibs (glyphOf nc0 libD1 d1) with
+    | .ok g => g.anchors.all (fun a => a.lib.isSome) && g.lib.isEmpty
+    | .error _ => false) = true := by decide +kernel
+
+-- a mixed document: defaults spelt out at even sites, omitted at odd ones
+example : parseGlif R0 (eventsOf (fun _ => .bad)
+      (specWriteWith ⟨true, false, fun k => k == .xScale, fun ci pi => ⟨ci % 2 == 0, pi % 2 == 1⟩, fun ki k => (ki % 2 == 0) && k != .yOffset⟩
+        render0 d0)) = loadObjectLibs (glyphOf nc0 [] d0) :=
+  norad_parser_reads_mixed_document codec0 parseCodec0 _ (fun _ => .bad) [] d0 descLegal_d0 (by intro t ht; cases ht)
 
 -- the element theorems apply (their codec hypothesis is satisfiable)
 example := norad_parser_reads_spec_writer parseCodec0 []
